@@ -22,6 +22,10 @@ RANDOM_FUNCS = {
 }
 
 PASS = object()
+LAZY_UNIFORM = object()   # decider's answer to rand / rand_like / uniform_(0,1): "tell me what you compare it with"
+
+_CMP = {"lt": 0, "le": 0, "__lt__": 0, "__le__": 0, "gt": 1, "ge": 1, "__gt__": 1, "__ge__": 1}
+_FORWARD = {"to", "double", "float", "clone", "contiguous", "reshape", "view", "type", "detach", "squeeze", "unsqueeze"}
 
 
 class Owned(TorchFunctionMode):
@@ -33,14 +37,61 @@ class Owned(TorchFunctionMode):
         self.mode = mode
         self.calls = []  # (name, shape/arg summary)
         self.undecided = 0
+        self.lazy = {}   # id -> marker tensor standing for a U(0,1) variate whose only legal use is a threshold test
+        self.flags = []  # observations about HOW the library draws (e.g. a uniform variate of too low precision)
+
+    # -- a Bernoulli(p) draw realised as `rand(...) < p`: the comparison, not the rand call, is the choice point
+    def _marker(self, shape, dtype):
+        m = torch.zeros(tuple(shape), dtype=dtype if dtype is not None and dtype.is_floating_point else torch.get_default_dtype())
+        self.lazy[id(m)] = m
+        return m
+
+    def _threshold(self, name, args):
+        a, b = args[0], args[1]
+        u_first = isinstance(a, torch.Tensor) and id(a) in self.lazy
+        u, p = (a, b) if u_first else (b, a)
+        if isinstance(p, torch.Tensor) and id(p) in self.lazy:
+            raise EngineError("two uniform variates compared with each other: not a Bernoulli draw the harness can own")
+        pt = p if isinstance(p, torch.Tensor) else torch.tensor(float(p), dtype=torch.double)
+        if torch.finfo(u.dtype).bits < torch.finfo(pt.dtype if pt.dtype.is_floating_point else torch.double).bits:
+            self.flags.append(f"uniform variate drawn as {u.dtype} compared with a {pt.dtype} probability")
+        pb = torch.broadcast_to(pt.detach(), torch.broadcast_shapes(u.shape, pt.shape)).clone().to(torch.double).clamp(0.0, 1.0)
+        self.calls.append("bernoulli")
+        bits = self.decider("bernoulli", torch.bernoulli, (pb,), {})
+        if bits is PASS:
+            bits = torch.bernoulli(pb)
+        below = bits.to(torch.bool)            # the event U < p
+        less = _CMP[name] == 0
+        # lt(u, p) -> U<p ; lt(p, u) -> p<U ; gt(u, p) -> U>p ; gt(p, u) -> p>U
+        return below if (less == u_first) else ~below
 
     def __torch_function__(self, func, types, args=(), kwargs=None):
         kwargs = kwargs or {}
         name = getattr(func, "__name__", None)
+        if self.lazy and any(isinstance(a, torch.Tensor) and id(a) in self.lazy for a in args):
+            if name in _CMP and len(args) >= 2:
+                return self._threshold(name, args)
+            if name in _FORWARD:
+                r = func(*args, **kwargs)
+                if isinstance(r, torch.Tensor) and r.is_floating_point():
+                    self.lazy[id(r)] = r
+                return r
+            if name not in ("size", "dim", "numel", "__get__", "__len__", "__repr__", "shape", "dtype", "device", "is_floating_point"):
+                raise EngineError(f"a uniform variate is used in `{name}`, not in a threshold comparison: the harness cannot own this draw")
         if name in RANDOM_FUNCS:
             self.calls.append(name)
             if self.decider is not None:
                 r = self.decider(name, func, args, kwargs)
+                if r is LAZY_UNIFORM:
+                    if name == "rand":
+                        shape = args[0] if len(args) == 1 and isinstance(args[0], (tuple, list, torch.Size)) else tuple(a for a in args if isinstance(a, int)) or tuple(kwargs.get("size", ()))
+                        return self._marker(shape, kwargs.get("dtype"))
+                    if name == "rand_like":
+                        return self._marker(args[0].shape, kwargs.get("dtype", args[0].dtype))
+                    if name == "uniform_" and len(args) == 1 and not kwargs:
+                        self.lazy[id(args[0])] = args[0]
+                        return args[0]
+                    raise EngineError(f"random call {name} with these arguments cannot be owned as a threshold draw")
                 if r is not PASS:
                     return r
             self.undecided += 1
@@ -137,6 +188,8 @@ class TapeDecider:
                 digits.append(lo + c % span)
                 c //= span
             return torch.tensor(digits, dtype=kwargs.get("dtype", torch.long)).reshape(tuple(size))
+        if name in ("rand", "rand_like", "uniform_"):
+            return LAZY_UNIFORM
         raise EngineError(f"random call {name} reached a tape decider that does not own it")
 
 
